@@ -1397,17 +1397,17 @@ def group_consecutive(lhs, ctx):
         return lhs
 
     def gen():
-        prev = lhs[0]
-        no_found = 1
+        # a group holds the items themselves (items that compare equal
+        # need not be the same value: 1 and "1")
+        run = [lhs[0]]
 
         for item in lhs[1:]:
-            if not non_vectorising_equals(prev, item, ctx):
-                yield [prev] * no_found
-                prev = item
-                no_found = 1
+            if not non_vectorising_equals(run[0], item, ctx):
+                yield run
+                run = [item]
             else:
-                no_found += 1
-        yield [prev] * no_found
+                run.append(item)
+        yield run
 
     if typ is LazyList:
         return LazyList(gen())
